@@ -33,7 +33,8 @@ ADMITTED_GAPS = {'gap:col:before-settings', 'gap:table:before-brace', 'gap:enum:
                  'gap:settings:column', 'gap:settings:table', 'gap:settings:index', 'gap:settings:ref', 'gap:settings:group',
                  'gap:group:before-settings'}
 HOSTILE = ["it's", 'say "hi"', '{x} {0} {}', 'Table fake { id int }', 'CREATE TABLE fake (id int);', '; DROP', "'''", '`tick`',
-           '[note: \'x\']', '}', '{', ']', 'Ref: a.b > c.d', '-- dashes', '// slashes', 'é 名 😀', '%s %d', 'back\\slash']
+           '[note: \'x\']', '}', '{', ']', 'Ref: a.b > c.d', '-- dashes', '// slashes', 'é 名 😀', '%s %d', 'back\\slash',
+           'exported to C:\\dumps\\', 'ends with a backslash \\', '\\', 'line continues \\ ', '// // twice', '-- -- twice', '/', '*', '/*', '#', '////']
 
 
 def comment_payloads(rng, kind, n):
@@ -189,6 +190,13 @@ def capture_cases(rng):
                     lambda d: d.tables[0].indexes[1].comment, ''))
         out.append((f'ref-short|above+empty-trailing|{empty}', f'Table t {{\n id int\n x int\n}}\n{above(a, "line")}Ref: t.id > t.x {empty}\n',
                     lambda d: d.refs[0].comment, ''))
+    # ---- two comments after one index on its line (the only element whose line takes two): the last one is stored and
+    # nothing leaks to the neighbouring indexes
+    for n_ in range(3):
+        a1, a2 = txt(False), txt(False)
+        two = f' /* {a1[0]}*/ // {a2[0]}'
+        out.append((f'index|two-trailing|mixed', f'Table t {{\n  id int\n  x int\n  indexes {{\n    x\n    (id, x) [unique]{two}\n    id\n  }}\n}}\n',
+                    lambda d: d.tables[0].indexes[1].comment, a2[0]))
     # ---- a comment after the closing brace of a block belongs to nothing; the element that follows keeps exactly the block
     # written directly above it (or no comment at all)
     firsts = {'table': 'Table f {\n  id int\n}', 'enum': 'Enum fe {\n  x\n}', 'ref-block': 'Ref fr {\n  t.id > t.x\n}',
